@@ -70,10 +70,27 @@ def td_streams(tier, seed):
              "td_case", "td_case_code")]
 
 
+def phybo_streams(tier, seed):
+    rng = random.Random(seed + 3)
+    n = 60 if tier == "quick" else 1500
+    return [("phybo_get_GLS", [gl.gen_phybo_case(rng) for _ in range(n)], "phybo_case", "phybo_case_code")]
+
+
+def corpus_streams(kinds):
+    import glob
+    import os
+    by_kind = {}
+    for path in sorted(glob.glob(os.path.join(env.VERIF, "corpus", "gainloss", "*.json"))):
+        c = gl.from_json(json.load(open(path)))
+        by_kind.setdefault(c["kind"], []).append(c)
+    return [("corpus_" + k, by_kind[k]) + gl.CASE_TYPES[k] for k in kinds if k in by_kind]
+
+
 def streams(tier, seed, prop):
     if prop == "C08":
-        return gls_streams(tier, seed)
-    return gls_streams(tier, seed) + glsr_streams(tier, seed) + td_streams(tier, seed)
+        return corpus_streams(["get_gls"]) + gls_streams(tier, seed)
+    return (corpus_streams(["get_gls", "glsr", "topdown"]) + gls_streams(tier, seed) + glsr_streams(tier, seed)
+            + td_streams(tier, seed) + phybo_streams(tier, seed))
 
 
 def main(tier, seed, prop=PROP):
@@ -86,7 +103,8 @@ def main(tier, seed, prop=PROP):
     total_prop = 0
     try:
         for name, cases, ctype, cfn in streams(tier, seed, prop):
-            st = driver.run_stream(run, gl, cases, d, name, ctype, cfn, prop_bits, shard=400)
+            st = driver.run_stream(run, gl, cases, d, name, ctype, cfn, prop_bits,
+                                   shard=30 if ctype == "phybo_case" else 400)
             total_prop += st["prop_fail"] + st["impl_errors"]
     except coqrun.CoqError as e:
         run.violation({"kind": "model does not evaluate", "no_longer_checks": "GainLoss/GainLossExec.v",
